@@ -21,7 +21,7 @@ from typing import Any, Callable, Dict, List, Tuple
 from ..util import make_cfg, pmap
 
 MANIFEST = {
-    "technique": "TLA+ turn-pipeline spec (Turn.tla) with a fault disjunct per declared fail-soft site (effect = subsystem idle), model-checked with TLC over fault singles/pairs; each fault set injected into the real run_turn at the site's callee for many exception types / garbage snapshot contents and compared with the spec's record sequence and with the idle baseline run",
+    "technique": "TLA+ turn-pipeline spec (Turn.tla) with a fault disjunct per declared fail-soft site (effect = subsystem idle), model-checked with TLC over fault singles/pairs; each fault set injected into the real run_turn at the site's callee for many exception types / garbage snapshot contents and compared with the spec's record sequence and with the idle baseline run; step-wise spec of the boot-time store import (BootImport.tla, atomicity invariant, in-place control model refuted) with every terminal state replayed through the boot hook",
     "text": "Model checking of the turn state machine under every single fault (and pairs in the thorough tier) at the declared fail-soft sites with all optional subsystems live, bound to the code by fault injection at the callee of each site (boot snapshot loading incl. garbage files, GEL merge/split/promotion, reflection compute/write/log, LLM adapter construction, hybrid rerank, fusion, MMR, quality trace, T3 trace, cache invalidation, store batch/single apply, sidecar write) and differential comparison of the canonical records with the idle baseline.",
     "note": "Only Exception subclasses are injected (the engine's guards are `except Exception`). The idle baseline for store errors is a store whose apply does nothing. One small world per site; exception types cycle over 8 classes.",
 }
